@@ -12,6 +12,10 @@ MODULES_CYCLE = [
 # the rule "unknown or out-of-scope name" in packages of several modules: own module, tied to resolve_name by regenerated facts
 PROPS_SCOPE = "RotoV.Props.C07Scope"
 MODULES_SCOPE = ["RotoV.Model.TcModules", "RotoV.Lemmas.TcModules"]
+# rules special-cased for a built-in type (`?` under the built-in Option, `+` on the built-in List) and the `to_string`
+# obligation of f-string parts (resolve_obligations): own module, decisions parameterised by regenerated facts
+PROPS_BUILTIN = "RotoV.Props.C07Builtin"
+MODULES_BUILTIN = ["RotoV.Model.TcBuiltin", "RotoV.Lemmas.TcBuiltin"]
 MODULES = [
     "RotoV.Lemmas.TcRules", "RotoV.Lemmas.UnifyTc", "RotoV.Lemmas.Typing", "RotoV.Lemmas.TypingAux", "RotoV.Lemmas.TypingMono", "RotoV.Lemmas.TypingProg",
     "RotoV.Model.Typing", "RotoV.Model.TcRules", "RotoV.Model.UnifyTc",
@@ -30,7 +34,7 @@ def search(ctx):
 def run(ctx):
     ctx.extract(["c07facts", "c07arms", "c07cycle"])
     parts = []
-    for module, extra in ((PROPS, MODULES), (PROPS_CYCLE, MODULES_CYCLE), (PROPS_SCOPE, MODULES_SCOPE)):
+    for module, extra in ((PROPS, MODULES), (PROPS_CYCLE, MODULES_CYCLE), (PROPS_SCOPE, MODULES_SCOPE), (PROPS_BUILTIN, MODULES_BUILTIN)):
         for k in ("theorems", "nonvacuity_examples", "axioms"):
             ctx.coverage.pop(k, None)
         ctx.prove(module, extra_modules=extra)
@@ -67,7 +71,14 @@ def run(ctx):
         "enforces them is TESTED (phases mods / mods-gen), only the clause `a path segment after the first is looked up among the "
         "declarations of the scope, never its imports` is tied to the source by regenerated facts (order of consultation in "
         "ScopeGraph::resolve_name, values of `recurse` in resolve_module_part_of_path)",
-        "Runtime::new() (no registered types / context)",
+        "built-in names: that a type the script declares resolves to a name outside the GLOBAL scope and a built-in one to a GLOBAL "
+        "name is TESTED (phase shadow: every representative that declares a type x every built-in type name it does not mention; a "
+        "quarter of the generated mutants has one declared type spelled as a built-in); Model/TcBuiltin.lean's decisions (`?`, list `+`, "
+        "signature comparison of resolve_obligations) follow regenerated facts (feature detection on the token text of the arms)",
+        "registered types: ONE runtime with seven registered types (one per shape of `to_string` signature), scripts by position of the "
+        "f-string part (phase tostr); get_method and unification of ground registered types are not modelled (on ground types unification "
+        "is taken to be equality)",
+        "Runtime::new() (no registered types / context) for every other phase",
     ]
     return ctx.finish(
         level="proof",
@@ -78,7 +89,9 @@ def run(ctx):
              "unification scripts by (#ok, #fail, #variables); inference model vs checker by (representative | edit "
              "kind, verdict incl. class of report); value cycles by (shape of the reference cycle, closing reference, rank "
              "order of the item names | random: simple cycle or knot, size of the component, kind of the first-ranked item, verdict); "
-             "type cycles by (shape, closing mention, wrapper, record or enum first)",
+             "type cycles by (shape, closing mention, wrapper, record or enum first); "
+             "shadowed built-in names by (built-in name, representative, verdict); registered types by (shape of to_string signature, "
+             "position of the f-string part | number of call arguments, verdict)",
         search=search,
     )
 
